@@ -1155,6 +1155,9 @@ MYTH_CTX_CALLBACK void myth_entry_point_1(void *arg1,void *arg2,void *arg3)
   }
   MYTH_VERIF_EVENT("cb.leave", this_thread, 0);
   env->this_thread = next_thread;
+  /* the next thread may have been put into this worker's queue by
+     another worker (myth_wsapi_runqueue_pass) */
+  next_thread->env = env;
 #if MYTH_EP_PROF_DETAIL
   t1=myth_get_rdtsc();
   env->prof_data.ep_join+=t1-t0;
